@@ -93,8 +93,11 @@ func registerMisc() {
 		}
 		return strconv.FormatFloat(f, byte(a[1].(int64)), int(a[2].(int64)), int(a[3].(int64)))
 	}
+	// time.Now: a fixed, monotonically increasing stub instant (wall clock is not modelled)
 	externals["time.Now"] = func(m *Machine, fr *frame, a []value) value {
-		panic(unsupported("time.Now"))
+		m.clock++
+		p := m.newStructPtr("time", "Time", map[string]value{"ext": int64(63_800_000_000) + m.clock})
+		return (*p).(structure)
 	}
 	externals["time.now"] = func(m *Machine, fr *frame, a []value) value {
 		return tuple{int64(1700000000), int64(0), int64(1)}
